@@ -393,7 +393,13 @@ PROPS = {
               # and deletion passes fall INTO running compactions
               dict(driver="hist", args=["--nops", "90", "--per-file", "6", "--profile", "fill",
                                         "--compact-bias", "1", "--jitter", "350"],
-                   quick=32, thorough=800)]),
+                   quick=32, thorough=800),
+              # read views given back on every path: gets suspended after their capture while
+              # flushes and compactions install newer versions - one of them then FAILS (a
+              # transient read fault); at the end exactly one version is linked and only its
+              # tables are on disk (RainConc_Trace: VersionLeak / TablesNotExact)
+              dict(driver="sched", args=["--all", "--match", "flush_compact"], quick=1, thorough=6,
+                   trace=CONC_TRACE, final_rc3=True)]),
     "C02": dict(
         design=[(DUR, ["MC_RainDur_small.cfg", "MC_RainDur_comp.cfg"],
                  ["MC_RainDur_small.cfg", "MC_RainDur_big.cfg", "MC_RainDur_comp.cfg"]), REOPEN],
